@@ -96,6 +96,9 @@ def cases(tier, seed):
     per = 3 if tier == "quick" else 8
     for g in range(0, len(loops), per):
         out.append(dict(name=f"loop-{g // per}", kind="loop", triples=[list(t) for t in loops[g:g + per]], N=N))
+    # dispersive device: the source must also be set up against the post-device dispersive coefficients (seeded change C29b)
+    dl = [("contains", "contains", "contains"), ("left", "in", "right")] + ([("in", "in", "in"), ("right", "contains", "left")] if tier != "quick" else [])
+    out.append(dict(name="loop-dispersive", kind="loop_disp", triples=[list(t) for t in dl], N=N))
     return out
 
 
@@ -125,12 +128,16 @@ def _placed_pair(S, O):
     import fdtdx
 
     mats = {"a": fdtdx.Material(permittivity=2.0), "b": fdtdx.Material(permittivity=5.0)}
+    if disp:
+        from fdtdx.dispersion import DispersionModel, LorentzPole
+        mats = {"a": fdtdx.Material(permittivity=1.0),
+                "b": fdtdx.Material(permittivity=2.0, dispersion=DispersionModel(poles=(LorentzPole(resonance_frequency=4e14, damping=1e13, delta_epsilon=1.5),)))}
     dev = fdtdx.Device(name="dev", materials=mats, param_transforms=[], partial_voxel_grid_shape=(1, 1, 1))
     src = fdtdx.PointDipoleSource(name="src", wave_character=fdtdx.WaveCharacter(wavelength=600e-9), polarization=0)
     return dev.aset("_grid_slice_tuple", tuple(S)), src.aset("_grid_slice_tuple", tuple(O))
 
 
-def build_real_scene(S, O, N, pol=0):
+def build_real_scene(S, O, N, pol=0, disp=False):
     """real placement of a continuous device on box S and a (box-shaped) dipole source on box O in an N^3 volume."""
     import jax
     import jax.numpy as jnp
@@ -140,6 +147,10 @@ def build_real_scene(S, O, N, pol=0):
     cfg = fdtdx.SimulationConfig(time=1e-15, grid=fdtdx.UniformGrid(spacing=50e-9), backend="cpu", dtype=jnp.float64)
     vol = fdtdx.SimulationVolume(partial_grid_shape=(N, N, N), name="vol")
     mats = {"a": fdtdx.Material(permittivity=2.0), "b": fdtdx.Material(permittivity=5.0)}
+    if disp:
+        from fdtdx.dispersion import DispersionModel, LorentzPole
+        mats = {"a": fdtdx.Material(permittivity=1.0),
+                "b": fdtdx.Material(permittivity=2.0, dispersion=DispersionModel(poles=(LorentzPole(resonance_frequency=4e14, damping=1e13, delta_epsilon=1.5),)))}
     dev = fdtdx.Device(name="dev", partial_grid_shape=tuple(h - l for l, h in S), materials=mats, param_transforms=[], partial_voxel_grid_shape=(1, 1, 1))
     src = fdtdx.PointDipoleSource(name="src", partial_grid_shape=tuple(h - l for l, h in O), wave_character=fdtdx.WaveCharacter(wavelength=600e-9),
                                   polarization=pol)
@@ -186,6 +197,8 @@ def run_case(c, case):
         return _predicate(c, case)
     if case["kind"] == "loop":
         return _loop(c, case)
+    if case["kind"] == "loop_disp":
+        return _loop_disp(c, case)
     raise ValueError(case["kind"])
 
 
@@ -228,6 +241,72 @@ def _predicate(c, case):
         c.sym_explore(f"intersect=>overlap[{tname}]", fn, post, assume + cls, replay, key=f"check_overlap:device-{tname}", int_range=16)
         # vacuity twin: the class is inhabited and its members do intersect
         c.witness(f"class inhabited [{tname}]", intersect_formula(St, Ot), assume + cls)
+
+
+def _loop_disp(c, case):
+    """dispersive continuous device: every array leaf of the source's state after apply_params must equal the state a fresh
+    ``source.apply`` against the returned (post-device) permittivities, permeabilities and dispersive coefficients gives."""
+    import jax
+    import jax.numpy as jnp
+
+    import fdtdx
+
+    from .. import jx2smt as jx
+    from .. import sc
+
+    c.functions.update(META["functions"])
+    c.functions.add("objects.sources.dipole.PointDipoleSource.apply (dispersive coefficients) / effective_inv_permittivity")
+    N = case["N"]
+    for trip in case["triples"]:
+        S, O, assume = _sym_boxes(N)
+        St, Ot = _terms(S), _terms(O)
+        s = z3.Solver()
+        s.add(*assume, *[rel_formula(r, St[a][0], St[a][1], Ot[a][0], Ot[a][1]) for a, r in enumerate(trip)])
+        if s.check() != z3.sat:
+            raise Inconclusive(f"relation class {trip} has no member on a {N}^3 grid")
+        Sb, Ob = _model_boxes(s.model(), S, O)
+        tname = "/".join(trip)
+        t0 = time.time()
+        oc, arrays, params, key = build_real_scene(Sb, Ob, N, pol=1, disp=True)
+        if arrays.dispersive_c1 is None:
+            raise Inconclusive("scene has no dispersive coefficient arrays")
+        leaves, treedef = jax.tree_util.tree_flatten(params)
+        P = jx.symarr("p", leaves[0].shape)
+        c.symvars += P.size
+        box = [z3.And(v >= 0, v <= 1) for v in P.reshape(-1)]
+        names = ("_inv_eps_local", "_inv_eps_oriented")
+
+        def fn(p):
+            a2, oc2, _ = fdtdx.apply_params(arrays, oc, jax.tree_util.tree_unflatten(treedef, [p]), key)
+            src = _named(oc2, "src")
+            fresh = _named(oc, "src").apply(key=key, inv_permittivities=a2.inv_permittivities, inv_permeabilities=a2.inv_permeabilities,
+                                            dispersive_c1=a2.dispersive_c1, dispersive_c2=a2.dispersive_c2, dispersive_c3=a2.dispersive_c3,
+                                            dispersive_c4=a2.dispersive_c4, electric_conductivity=a2.electric_conductivity)
+            return [getattr(src, n) for n in names], [getattr(fresh, n) for n in names], a2.dispersive_c3
+
+        (got, want, c3), tr = jx.call(fn, P)
+        c.interp_s += time.time() - t0
+        fj = jax.jit(fn)
+
+        def replay(m, fj=fj):
+            pv = np.clip(np.asarray([float(model_value(m, v)) for v in P.reshape(-1)]).reshape(P.shape), 0.0, 1.0)
+            g, w, _ = fj(jnp.asarray(pv))
+            err = max(float(np.max(np.abs(np.asarray(a) - np.asarray(b)))) for a, b in zip(g, w))
+            return err > 1e-9, dict(device_box=Sb, source_box=Ob, params=pv, max_abs_state_difference=err)
+
+        pc = np.full(leaves[0].shape, 0.25) + 0.5 * np.arange(leaves[0].size).reshape(leaves[0].shape) / max(1, leaves[0].size)
+        ref = fn(jnp.asarray(pc))
+        c.validate(jx.to_numeric(tr(pc)[0][0]), np.asarray(ref[0][0]), "source _inv_eps_local after apply_params (dispersive device)")
+        for n, g, w in zip(names, got, want):
+            c.prove_eq(f"[{tname}] dispersive device: source {n} == fresh apply against the post-device arrays", jx.lift(g), jx.lift(w), assume=box, replay=replay,
+                       key=f"apply_params:source-state-dispersive:device-{tname}", chunk=64)
+        vs = [v for v in jx.lift(c3).reshape(-1) if sc.is_symbolic_scalar(v)]
+        if not vs:
+            raise Inconclusive(f"[{tname}] post-device dispersive coefficients do not depend on the parameters")
+        gs = [v for v in jx.lift(want[0]).reshape(-1) if sc.is_symbolic_scalar(v)]
+        if not gs:
+            raise Inconclusive(f"[{tname}] source state does not depend on the parameters")
+        c.witness(f"[{tname}] the source's effective inverse permittivity depends on the device parameters", sc.ne(gs[0], jx.to_numeric(jx.lift(jnp.asarray(ref[1][0]))).reshape(-1)[0].item()), box)
 
 
 def _loop(c, case):
